@@ -1469,6 +1469,11 @@ class FnAnalysis:
                     self.ev(st, "call", e, fn=fn, args=tuple(vals), arg_nodes=arg_nodes, recv=recv_node, ret=v2, effects=(), uid=None, tys=tys,
                             argkeys=[frozenset() for _ in arg_nodes], pos_before={}, pos_after={}, direct=None, targs=e.get("targs"), resolved=e.get("resolved"))
                     return v2
+        if fn.startswith("std::collections::hash::map::VacantEntry::") and fn.endswith("::insert") and len(vals) == 2:
+            # inserting through a vacant entry hands back (a reference to) the value just stored
+            self.ev(st, "call", e, fn=fn, args=tuple(vals), arg_nodes=arg_nodes, recv=recv_node, ret=vals[1], effects=(), uid=None, tys=tys,
+                    argkeys=[frozenset() for _ in arg_nodes], pos_before={}, pos_after={}, direct=None, targs=e.get("targs"), resolved=e.get("resolved"))
+            return vals[1]
         if fn in PAYLOAD_TRANSPARENT and vals:
             ret_ = vals[0]
             if fn.endswith(("::ok_or", "::ok_or_else")) and isinstance(ret_, tuple) and ret_ and ret_[0] == "call" and ret_[3] is None:
